@@ -31,16 +31,82 @@ class Finding(object):
         return "%s|%s" % (self.kind, self.entry)
 
 
+KNAMES = {0: "lock", 1: "try", 2: "unlock", 3: "lock", 4: "try", 5: "unlock"}
+
+
+def classify(entry, kind, events):
+    """role of a counterexample (not its values): which kind of collection / API flavour, which class of
+    raw operation faulted and in which phase of the call (acquire / section / release)"""
+    import re
+    m = re.match(r"h_(\w+?)::(\w+?)__(\w+?)__(\w+)", entry)
+    role = {"monitor": kind, "harness": None, "family": None, "api": None, "style": None, "blocking": None,
+            "fault_op": None, "phase": None}
+    if m:
+        shape, api = m.group(2), m.group(3)
+        role["harness"] = m.group(1)
+        role["api"] = api
+        role["style"] = "scoped" if api.startswith("scoped") else "guard"
+        role["blocking"] = "try" not in api
+        if shape.startswith("s_"):
+            fam = "single"
+        elif shape.startswith("po_"):
+            fam = "poisonable"
+        elif shape.startswith("n_"):
+            fam = "nested:" + shape[2:]
+        elif shape.startswith("rt"):
+            fam = "retry"
+        elif shape.startswith("ow"):
+            fam = "owned"
+        else:
+            fam = "sorted"
+        role["family"] = fam
+    phase = "acquire"
+    nfault = 0
+    role["release_fault_during_recovery"] = False
+    for (c, a, b) in events:
+        if c == 106 and a == 9011:
+            phase = "section"
+        elif c == 106 and a == 9012:
+            phase = "release"
+        elif c == 103 or c == 104:
+            nfault += 1
+            op = KNAMES.get(a, str(a)) if c == 103 else "user"
+            if nfault == 1:
+                role["fault_op"] = op
+                role["phase"] = phase
+            elif op == "unlock":
+                # a release panicked while an earlier panic was already being handled
+                role["release_fault_during_recovery"] = True
+    return role
+
+
 def match_known(finding, known):
+    role = finding.role
     for k in known:
         if k.get("status") != "open" or k.get("property") != finding.pid:
             continue
-        if k.get("kind") and k["kind"] != finding.kind:
-            continue
-        pats = k.get("entry_patterns") or []
-        if pats and not any(p in finding.entry for p in pats):
-            continue
-        return k
+        alts = k.get("match_any") or [k.get("match") or {}]
+        for alt in alts:
+            ok = True
+            for field, allowed in alt.items():
+                v = role.get(field)
+                if isinstance(allowed, list):
+                    if v not in allowed:
+                        ok = False
+                elif v != allowed:
+                    ok = False
+            if ok:
+                return k
+    return None
+
+
+def _fault_sig(events):
+    ph = 0
+    for e in events or []:
+        if e[0] == 106 and e[1] in (9011, 9012):
+            ph = e[1]
+        if e[0] in (103, 104):
+            return (e[0], e[1], ph)
     return None
 
 
@@ -113,7 +179,7 @@ def run_mirsym_property(pid, tier, seed, harness_files, relevant_codes, outcome_
         seen = set()
         os.makedirs(os.path.join(common.EVIDENCE_DIR, "replays"), exist_ok=True)
         for entry, kind, code, p in candidates:
-            dk = (entry, kind)
+            dk = (entry, kind, _fault_sig(p.get("events")))
             if dk in seen:
                 continue
             if p.get("inputs") is None:
@@ -137,28 +203,33 @@ def run_mirsym_property(pid, tier, seed, harness_files, relevant_codes, outcome_
             seen.add(dk)
             f = Finding(pid, kind, entry, code, p["inputs"], p.get("detail"), p.get("spans"), nat)
             f.release_ok = rel_ok
+            f.role = classify(entry, kind, nat["events"])
             confirmed.append(f)
         viol_lines = []
         known_lines = []
+        known_hits = {}
         n_new = 0
         for i, f in enumerate(confirmed):
             k = match_known(f, known)
             if k is not None:
-                known_lines.append("KNOWN-FINDING: property=%s %s [%s in %s]" % (pid, k.get("what", ""), f.kind, f.entry))
+                known_lines.append("KNOWN-FINDING: property=%s %s" % (pid, k.get("what", "")))
+                known_hits[k.get("id", "?")] = known_hits.get(k.get("id", "?"), 0) + 1
                 continue
             n_new += 1
             path = os.path.join(common.EVIDENCE_DIR, "replays", "%s-%d.json" % (pid, n_new))
             with open(path, "w") as fh:
-                json.dump({"property": pid, "entry": f.entry, "kind": f.kind, "monitor": f.code, "inputs": f.inputs,
+                json.dump({"property": pid, "entry": f.entry, "kind": f.kind, "monitor": f.code, "inputs": f.inputs, "role": f.role,
                            "detail": f.detail, "spans": f.spans, "native_outcome": f.native["outcome"],
                            "native_events": f.native["events"][-60:], "release_profile_reproduces": f.release_ok,
                            "replay_cmd": "./check %s --replay %s" % (pid, path)}, fh, indent=1)
             viol_lines.append("VIOLATION property=%s replay=%s" % (pid, path))
-            common.log("  violation: %s in %s inputs=%s spans=%s" % (f.kind, f.entry, f.inputs, f.spans[:3]))
+            common.log("  violation: %s in %s role=%s inputs=%s" % (f.kind, f.entry, f.role, f.inputs))
         for l in sorted(set(known_lines)):
             print(l)
-        for l in viol_lines:
+        for l in viol_lines[:25]:
             print(l)
+        if len(viol_lines) > 25:
+            print("... and %d more violations (replay files written for all)" % (len(viol_lines) - 25))
         shown = set()
         for (e, o, d) in inconclusive:
             line = "INCONCLUSIVE %s: %s %s" % (e, o, (d or "")[:300])
@@ -194,7 +265,7 @@ def run_mirsym_property(pid, tier, seed, harness_files, relevant_codes, outcome_
             "summaries_used": sorted(summaries),
             "bounds": bounds or {},
             "violations_confirmed": len(confirmed),
-            "known_findings_hit": sorted(set(known_lines)),
+            "known_findings_hit": known_hits,
             "unconfirmed_candidates": len(unconfirmed),
             "translator_mismatches": len(mismatches),
             "inconclusive": [list(x)[:2] + [(x[2] or "")[:200]] for x in inconclusive[:20]],
